@@ -4,6 +4,7 @@ import AslProofs.StrRep
 import AslProofs.StrOps
 import AslProofs.StrHist
 import AslProofs.StrExtra
+import AslProofs.StrQuery
 import AslProofs.CsvNum
 /-!
 # C03 — `asl::String` agrees with a byte-string model and stays in bounds
@@ -364,6 +365,37 @@ theorem starts_ends {r : Rep} {s : Bytes} (h : Models r s) (p : Bytes) :
   rw [h.view, h.2.1]
   exact ⟨startsWith_iff s p, endsWith_iff s p⟩
 
+/-! ## single-byte reads: `operator[]`, the `char` overloads, `ok`/`!`/`isTrue`, `contains` -/
+
+/-- `operator[](i)` with `0 ≤ i ≤ length()` reads inside the storage block: the `i`-th byte of the text, and the
+    terminator at `i = length()` -/
+theorem index_read {r : Rep} {s : Bytes} (h : Models r s) :
+    (∀ i (hi : i < s.length), r.charAt i = some s[i]) ∧ r.charAt s.length = some 0 :=
+  ⟨charAt_lt h, charAt_len h⟩
+
+/-- `startsWith(char)`, `endsWith(char)`, `operator==(char)` read inside the block (also on the empty string, where
+    `str()[0]` is the terminator) and decide "first byte is `c`" (with the corner `"".startsWith('\0')`, which the
+    code answers with true), "last byte is `c`", "the text is exactly `c`" -/
+theorem char_tests {r : Rep} {s : Bytes} (h : Models r s) (c : UInt8) :
+    (∃ b, r.startsWithChar c = some b ∧ (b = true ↔ (s.head? = some c ∨ (s = [] ∧ c = 0)))) ∧
+    (∃ b, r.endsWithChar c = some b ∧ (b = true ↔ s.getLast? = some c)) ∧
+    (∃ b, r.eqChar c = some b ∧ (b = true ↔ s = [c])) :=
+  ⟨startsWithChar_spec h c, endsWithChar_spec h c, eqChar_spec h c⟩
+
+/-- `ok()` / `operator bool` = "not empty", `operator!` = "empty", and `isTrue()` (one in-block read of `str()[0]`) =
+    "not empty, not `"0"`, and not starting with one of `N n f F`" -/
+theorem truth_flags {r : Rep} {s : Bytes} (h : Models r s) :
+    (r.ok = true ↔ s ≠ []) ∧ (r.isEmpty = true ↔ s = []) ∧
+    ∃ b, r.isTrue = some b ∧
+      (b = true ↔ s ≠ [] ∧ s ≠ [48] ∧ s.head? ≠ some 78 ∧ s.head? ≠ some 110 ∧ s.head? ≠ some 102 ∧ s.head? ≠ some 70) :=
+  ⟨(ok_iff h).1, (ok_iff h).2, isTrue_spec h⟩
+
+/-- `contains(String / const char*)` decides "is a contiguous sub-list" (every pattern, the empty one included),
+    `contains(char)` decides membership -/
+theorem contains_spec {r : Rep} {s : Bytes} (h : Models r s) :
+    (∀ p, r.contains p = true ↔ p <:+: s) ∧ (∀ c, c ≠ 0 → (r.containsChar c = true ↔ c ∈ s)) :=
+  ⟨contains_iff h, containsChar_iff h⟩
+
 /-! ## G obligations: the storage constants read from the current source are safe
 
 `Gen/StrGen.lean` is regenerated from `include/asl/String.h` and `src/String.cpp` on every run; the model uses those
@@ -419,5 +451,8 @@ example : tokensAbs [32, 97, 98, 9, 9, 99, 10] = [[97, 98], [99]] := by decide +
 example : Mut.Valid (.append [97]) := by intro c hc; simp at hc; subst hc; decide
 example : myltoa (-9223372036854775808) = [45, 57, 50, 50, 51, 51, 55, 50, 48, 51, 54, 56, 53, 52, 55, 55, 53, 56, 48, 56] := by
   decide +kernel
+example : (ofBytes [78, 111]).bind (fun r => r.isTrue) = some false ∧ (ofBytes [78, 111]).bind (fun r => r.endsWithChar 111) = some true ∧
+    (ofBytes [78, 111]).bind (fun r => r.charAt 2) = some 0 ∧
+    (ofBytes [78, 111]).map (fun r => (r.contains [111], r.containsChar 78, r.ok)) = some (true, true, true) := by decide +kernel
 
 end C03
